@@ -137,6 +137,78 @@ theorem avx512_hmax_epi8 (a : Vector (BitVec 8) 64) : (esl_avx512_hmax_epi8 a).t
 theorem avx512_hmax_epi16 (a : Vector (BitVec 16) 32) : (esl_avx512_hmax_epi16 a).toInt = hmaxS a := by
   unfold esl_avx512_hmax_epi16 hmaxS; hmax_s
 
+/-! ### the scalar-loop maximum is the maximum -/
+theorem foldl_max_nat (l : List Nat) (b : Nat) :
+    (∀ x ∈ l, x ≤ l.foldl max b) ∧ b ≤ l.foldl max b ∧ (l.foldl max b = b ∨ l.foldl max b ∈ l) := by
+  induction l generalizing b with
+  | nil => simp
+  | cons x xs ih =>
+    obtain ⟨h1, h2, h3⟩ := ih (max b x)
+    simp only [List.foldl_cons]
+    refine ⟨?_, by omega, ?_⟩
+    · intro y hy
+      rcases List.mem_cons.mp hy with e | e
+      · subst e; omega
+      · exact h1 y e
+    · rcases h3 with h3 | h3
+      · rcases Nat.le_total b x with hb | hb
+        · right; rw [h3, Nat.max_eq_right hb]; exact List.mem_cons_self
+        · left; rw [h3, Nat.max_eq_left hb]
+      · right; exact List.mem_cons_of_mem _ h3
+
+/-- the scalar-loop value `hmaxU a` bounds every lane and (for a non-empty register) is one of the lanes -/
+theorem hmaxU_spec {w n : Nat} (a : Vector (BitVec w) n) :
+    (∀ i : Fin n, a[i].toNat ≤ hmaxU a) ∧ (0 < n → ∃ i : Fin n, hmaxU a = a[i].toNat) := by
+  unfold hmaxU
+  obtain ⟨h1, _, h3⟩ := foldl_max_nat (List.ofFn fun i : Fin n => a[i].toNat) 0
+  constructor
+  · intro i; exact h1 _ (by simp [List.mem_ofFn])
+  · intro hn
+    rcases h3 with h3 | h3
+    · refine ⟨⟨0, hn⟩, ?_⟩
+      have := h1 (a[(⟨0, hn⟩ : Fin n)].toNat) (by simp only [List.mem_ofFn]; exact ⟨⟨0, hn⟩, rfl⟩)
+      omega
+    · simp only [List.mem_ofFn] at h3
+      obtain ⟨i, hi⟩ := h3
+      exact ⟨i, hi.symm⟩
+
+theorem foldl_max_int (l : List Int) (b : Int) :
+    (∀ x ∈ l, x ≤ l.foldl max b) ∧ b ≤ l.foldl max b ∧ (l.foldl max b = b ∨ l.foldl max b ∈ l) := by
+  induction l generalizing b with
+  | nil => simp
+  | cons x xs ih =>
+    obtain ⟨h1, h2, h3⟩ := ih (max b x)
+    simp only [List.foldl_cons]
+    refine ⟨?_, by omega, ?_⟩
+    · intro y hy
+      rcases List.mem_cons.mp hy with e | e
+      · subst e; omega
+      · exact h1 y e
+    · rcases h3 with h3 | h3
+      · rcases Int.le_total b x with hb | hb
+        · right; rw [h3, Int.max_eq_right hb]; exact List.mem_cons_self
+        · left; rw [h3, Int.max_eq_left hb]
+      · right; exact List.mem_cons_of_mem _ h3
+
+/-- signed version -/
+theorem hmaxS_spec {w n : Nat} (a : Vector (BitVec w) n) :
+    (∀ i : Fin n, a[i].toInt ≤ hmaxS a) ∧ (0 < n → ∃ i : Fin n, hmaxS a = a[i].toInt) := by
+  unfold hmaxS
+  obtain ⟨h1, _, h3⟩ := foldl_max_int (List.ofFn fun i : Fin n => a[i].toInt) (-(2 ^ (w - 1) : Nat))
+  constructor
+  · intro i; exact h1 _ (by simp [List.mem_ofFn])
+  · intro hn
+    rcases h3 with h3 | h3
+    · refine ⟨⟨0, hn⟩, ?_⟩
+      have := h1 (a[(⟨0, hn⟩ : Fin n)].toInt) (by simp only [List.mem_ofFn]; exact ⟨⟨0, hn⟩, rfl⟩)
+      have hb := BitVec.le_toInt a[(⟨0, hn⟩ : Fin n)]
+      rw [h3] at this ⊢
+      have e : ((2 ^ (w - 1) : Nat) : Int) = 2 ^ (w - 1) := by push_cast; rfl
+      omega
+    · simp only [List.mem_ofFn] at h3
+      obtain ⟨i, hi⟩ := h3
+      exact ⟨i, hi.symm⟩
+
 /-! ### shifts and select: lane-wise identities, every lane index enumerated (indices only), lane values arbitrary -/
 theorem ext_lane {α n} (z : α) (a b : Vector α n) (h : ∀ j, j < n → lane a z j = lane b z j) : a = b := by
   apply Vector.ext; intro i hi
